@@ -55,6 +55,11 @@ def hostile_corpus(rng):
     L(b'{"command": "version", "command": "sign"}')
     L(b'\xef\xbb\xbf{"command": "version"}')
     L(b'{"command": "sign", "version": 5, "keyId": "\\ud800", "message": {"hash": "' + b"aa" * 32 + b'"}}')
+    # oversized key ids: syntactically valid BIP32 paths with far more elements than any key has
+    for n in (6, 21, 64, 255, 256, 1000):
+        kid = "m" + "/0" * n
+        L({"command": "getPubKey", "version": 5, "keyId": kid})
+        L({"command": "sign", "version": 5, "keyId": kid, "message": {"hash": "aa" * 32}})
     hdr = gen.random_header(rng, 19)
     tx = gen.random_tx(rng, max_in=2)
     auth = {"receipt": gen.random_receipt(rng).hex(), "receipt_merkle_proof": ["aa" * 20]}
